@@ -8,6 +8,7 @@ from .. import dialect, spaces
 from ..engine import chunks, seq_iter, seq_shards
 
 ID = "C02"
+LEAN = True  # cases are distinct by construction; see engine.Acc
 RULE = (
     "L1: every value token sequence (13-token alphabet) up to the bound that the reference recogniser accepts as a Value, "
     "in three contexts (middle field, last field, @string); L2: entries = heads x keys x field lists over a 17-value catalogue "
